@@ -95,7 +95,7 @@ struct Known {
 }
 
 fn load_known() -> Vec<Known> {
-    let p = format!("{}/known_findings.txt", verif_dir());
+    let p = std::env::var("VERIF_KNOWN").unwrap_or_else(|_| format!("{}/known_findings.txt", verif_dir()));
     let mut v = vec![];
     if let Ok(t) = std::fs::read_to_string(&p) {
         for line in t.lines() {
@@ -249,6 +249,27 @@ fn cmd_check(args: &[String]) {
     }
     cov.put("violations_of_other_properties_seen", other);
     cov.put("build", J::s(build_name()));
+    // results of the same check in other build configurations (run by ./check before this one)
+    if let Ok(extra) = std::env::var("VERIF_EXTRA_EVIDENCE") {
+        let mut arr = vec![];
+        for path in extra.split(':').filter(|p| !p.is_empty()) {
+            if let Ok(t) = std::fs::read_to_string(path) {
+                if let Ok(j) = json::parse(&t) {
+                    let c = j.get("coverage").cloned().unwrap_or(J::obj());
+                    arr.push(
+                        J::obj()
+                            .set("build", c.get("build").cloned().unwrap_or(J::Null))
+                            .set("evaluations", c.get("evaluations").cloned().unwrap_or(J::Null))
+                            .set("states", c.get("states").cloned().unwrap_or(J::Null))
+                            .set("transitions", c.get("transitions").cloned().unwrap_or(J::Null))
+                            .set("violations", j.get("violations").cloned().unwrap_or(J::Null))
+                            .set("known_findings_matched", j.get("known_findings_matched").cloned().unwrap_or(J::Null)),
+                    );
+                }
+            }
+        }
+        cov.put("same_check_in_other_builds", J::Arr(arr));
+    }
     {
         let mut dg = J::obj();
         for (k, v) in &s.digests {
@@ -352,7 +373,7 @@ fn run_check(prop: &str, tier: Tier) -> CheckOut {
         _ if has_dec || has_enc => {
             let mut stats = Stats::new();
             let mut vios = VioSet::default();
-            if has_dec && only != "enc" {
+            if has_dec && only != "enc" && only != "sweep" {
                 let or = dec_oracles(prop, tier);
                 let plan = dec_plan(prop, tier);
                 let (tag_chunk, tag_single): (&'static str, &'static str) = match prop {
@@ -396,7 +417,7 @@ fn run_check(prop: &str, tier: Tier) -> CheckOut {
                 stats.merge(&s);
                 vios.merge(v);
             }
-            if has_enc && only != "dec" {
+            if has_enc && only != "dec" && only != "sweep" {
                 let or = enc_oracles(prop);
                 let plan = enc_plan(prop, tier);
                 let (s, v) = run_enc_plan(plan, &or, "C04", "C03");
